@@ -12,7 +12,7 @@ Not decided: bitwise reproducibility of library numerics; worker completion orde
 import ast
 import os
 
-from ..model import Program, Module, walk_own, is_self_attr, dotted
+from ..model import Program, Module, walk_own, is_self_attr, dotted, canon
 from ..options import Schemas
 from ..report import AnalysisError, VERIF
 from .. import effects
@@ -330,12 +330,12 @@ def r4(prog, rep):
     ok = len(wr) == 1 and " ".join(mm.text(wr[0].args[1]).split()) == "self.equilibrium.geqdsk_input"
     rep.ob("R4", "the grid file stores geqdsk_input unmodified", ok, w.site(), "", key="prov/geqdsk-write")
     rs = prog.module("hypnotoad/scripts/hypnotoad_recreate_inputs.py")
-    src = " ".join(rs.source.split())
-    ok = 'gfile.write(gridfile["hypnotoad_input_geqdsk_file_contents"][...])' in src and 'yamlfile.write(gridfile["hypnotoad_inputs_yaml"][...])' in src
+    calls = {rs.code(n) for n in ast.walk(rs.tree) if isinstance(n, ast.Call)}
+    ok = canon('gfile.write(gridfile["hypnotoad_input_geqdsk_file_contents"][...])') in calls and canon('yamlfile.write(gridfile["hypnotoad_inputs_yaml"][...])') in calls
     rep.ob("R4", "the recreate script writes both stored strings verbatim", ok, rs.rel, "", key="prov/recreate")
     # the CLI passes the same dict to equilibrium, non-orthogonal and mesh options
-    src = " ".join(script.source.split())
-    ok = "tokamak.read_geqdsk(fh, settings=options, nonorthogonal_settings=options)" in src and "BoutMesh(eq, options)" in src
+    calls = {script.code(n) for n in ast.walk(script.tree) if isinstance(n, ast.Call)}
+    ok = canon("tokamak.read_geqdsk(fh, settings=options, nonorthogonal_settings=options)") in calls and canon("BoutMesh(eq, options)") in calls
     rep.ob("R4", "the command-line entry point feeds one option dict to equilibrium, non-orthogonal and mesh options", ok, script.rel, "", key="prov/cli-dict")
 
 
